@@ -49,15 +49,11 @@ func ruleR04a(c *Ctx) {
 
 // jsFuncTable reads soyjs's []Func{...} literal.
 func jsFuncTable(c *Ctx) map[string][]int {
-	init := c.mustVarInit("soyjs", "funcs")
-	if init == nil {
+	cl := jsFuncsLit(c)
+	if cl == nil {
 		return nil
 	}
 	info := c.Pkgs["soyjs"].TypesInfo
-	cl, ok := init.(*ast.CompositeLit)
-	if !ok {
-		return nil
-	}
 	out := map[string][]int{}
 	for _, el := range cl.Elts {
 		row, ok := el.(*ast.CompositeLit)
@@ -90,7 +86,7 @@ func ruleR04b(c *Ctx) {
 	if g == nil || j == nil {
 		return
 	}
-	pos := c.mustVarInit("soyjs", "funcs").Pos()
+	pos := jsFuncsLit(c).Pos()
 	all := map[string]bool{}
 	for k := range g {
 		all[k] = true
@@ -343,3 +339,57 @@ func ruleR04g(c *Ctx) {
 }
 
 var _ = token.ADD
+
+// jsFuncsLit: the rows of the generator's function table, whichever way it is declared: the package-level
+// variable of soyjs initialised by a []Func literal (copied into Funcs by init) or by a map[string]Func
+// literal. A map literal is normalised to the list of its row literals.
+func jsFuncsLit(c *Ctx) *ast.CompositeLit {
+	p := c.pkg("soyjs")
+	if p == nil {
+		return nil
+	}
+	fobj := p.Types.Scope().Lookup("Func")
+	if fobj == nil {
+		c.fatalf("anchor: soyjs.Func not found")
+		return nil
+	}
+	for _, f := range p.Syntax {
+		for _, d := range f.Decls {
+			gd, ok := d.(*ast.GenDecl)
+			if !ok || gd.Tok != token.VAR {
+				continue
+			}
+			for _, sp := range gd.Specs {
+				vs := sp.(*ast.ValueSpec)
+				for _, v := range vs.Values {
+					cl, ok := ast.Unparen(v).(*ast.CompositeLit)
+					if !ok {
+						continue
+					}
+					tv, ok := p.TypesInfo.Types[cl]
+					if !ok {
+						continue
+					}
+					switch t := tv.Type.Underlying().(type) {
+					case *types.Slice:
+						if types.Identical(t.Elem(), fobj.Type()) {
+							return cl
+						}
+					case *types.Map:
+						if types.Identical(t.Elem(), fobj.Type()) {
+							rows := &ast.CompositeLit{Type: cl.Type, Lbrace: cl.Lbrace, Rbrace: cl.Rbrace}
+							for _, el := range cl.Elts {
+								if kv, ok := el.(*ast.KeyValueExpr); ok {
+									rows.Elts = append(rows.Elts, kv.Value)
+								}
+							}
+							return rows
+						}
+					}
+				}
+			}
+		}
+	}
+	c.fatalf("anchor: soyjs's function table ([]Func or map[string]Func literal) not found")
+	return nil
+}
